@@ -17,13 +17,14 @@ use std::panic::{catch_unwind, AssertUnwindSafe};
 
 type E = El<0>;
 
-pub const NSCEN: u8 = 30;
+pub const NSCEN: u8 = 33;
 pub const SCEN_NAMES: [&str; NSCEN as usize] = [
     "retain", "drain_filter (caller-driven)", "dedup_by_key", "dedup_by", "dedup", "resize", "extend(iter)", "extend_from_slice",
     "clone", "splice(iter)", "from_iter_in", "truncate (panicking Drop)", "clear (panicking Drop)", "drop(vec) (panicking Drop)",
     "into_iter drop (panicking Drop)", "drain drop (panicking Drop)", "alloc_slice_fill_with", "alloc_slice_clone", "alloc_slice_fill_iter",
     "alloc_slice_fill_clone", "alloc_try_with / alloc_with", "String::retain", "Box<El> drop (panicking Drop)", "Box<[El]> drop (panicking Drop)",
     "vec! macro (clone)", "collect_in", "Vec == Vec (eq)", "drain_filter drop (finishing, predicate panics)", "alloc_slice_try_fill_with", "String::extend(iter)",
+    "format! with a panicking Display", "alloc_slice_fill_iter with an iterator that yields fewer items than it promised", "alloc_slice_fill_default (panicking Default)",
 ];
 
 #[derive(Clone, Debug)]
@@ -365,6 +366,55 @@ pub fn run_scenario(sc: &Scenario, panic_at: u32) -> RunOut {
                             std::panic::resume_unwind(e);
                         }
                     }
+                    30 => {
+                        struct PanickyDisplay(u32);
+                        impl std::fmt::Display for PanickyDisplay {
+                            fn fmt(&self, f: &mut std::fmt::Formatter<'_>) -> std::fmt::Result {
+                                let _u = ledger::enter_user();
+                                cb_tick(0);
+                                write!(f, "<{}>", self.0)
+                            }
+                        }
+                        let st = bumpalo::format!(in b, "{}-é-{}-{}", PanickyDisplay(1), PanickyDisplay(2), PanickyDisplay(3));
+                        let _u = ledger::enter_user();
+                        str_after = Some(st);
+                    }
+                    31 => {
+                        // promises `extra.len() + 2` items, yields only `extra.len()`: bumpalo documents a panic
+                        struct Liar(TickIter, usize);
+                        impl Iterator for Liar {
+                            type Item = E;
+                            fn next(&mut self) -> Option<E> {
+                                self.0.next()
+                            }
+                            fn size_hint(&self) -> (usize, Option<usize>) {
+                                (self.1, Some(self.1))
+                            }
+                        }
+                        impl ExactSizeIterator for Liar {}
+                        let n = extra.len() + 2;
+                        let s = b.alloc_slice_fill_iter(Liar(TickIter { vals: extra.clone().into_iter(), exact: true }, n));
+                        let _u = ledger::enter_user();
+                        for x in s.iter_mut() {
+                            unsafe { std::ptr::drop_in_place(x) };
+                        }
+                    }
+                    32 => {
+                        struct PD(E);
+                        impl Default for PD {
+                            fn default() -> Self {
+                                let _u = ledger::enter_user();
+                                cb_tick(0);
+                                PD(E::new(8))
+                            }
+                        }
+                        let n = (sc.c % 7) as usize;
+                        let s = b.alloc_slice_fill_default::<PD>(n);
+                        let _u = ledger::enter_user();
+                        for x in s.iter_mut() {
+                            unsafe { std::ptr::drop_in_place(x) };
+                        }
+                    }
                     22 => {
                         let bx = BBox::new_in(
                             {
@@ -388,7 +438,7 @@ pub fn run_scenario(sc: &Scenario, panic_at: u32) -> RunOut {
         out.panicked = res.is_err();
         if let Err(e) = &res {
             let m = e.downcast_ref::<&str>().map(|s| s.to_string()).or_else(|| e.downcast_ref::<String>().cloned()).unwrap_or_default();
-            if m != "injected callback panic" {
+            if m != "injected callback panic" && !(sc.scen == 31 && m.contains("too few elements")) {
                 out.viol.push(format!("{}: unexpected panic: {m}", SCEN_NAMES[sc.scen as usize]));
             }
         }
@@ -557,7 +607,7 @@ impl Engine for C16Engine {
         }
     }
     fn rule(&self) -> String {
-        "cases are proptest-generated scenarios (one of 30 callback-taking operations of Vec/String/Box/arena slices, a pre-state of 0-8 elements with observable destructors, arguments, a follow-up); each is dry-run to count its callback (predicate/key/Clone/PartialEq/iterator/initialiser) or destructor invocations n and then re-run for every k < n with the k-th invocation panicking once, followed by continued use or drop of the container and finally of the arena. Oracle after unwinding and again after the follow-up: no value dropped twice, nothing reachable through the container twice or after its destructor ran, nothing handed to the caller still reachable, String bytes valid UTF-8, the arena still allocates; leaks are allowed. non-trivial = a run whose panic fired after at least one callback had completed (elements already moved/compared); distinct = distinct scenario bytes".into()
+        "cases are proptest-generated scenarios (one of 33 callback-taking operations of Vec/String/Box/arena slices, a pre-state of 0-8 elements with observable destructors, arguments, a follow-up); each is dry-run to count its callback (predicate/key/Clone/PartialEq/iterator/initialiser) or destructor invocations n and then re-run for every k < n with the k-th invocation panicking once, followed by continued use or drop of the container and finally of the arena. Oracle after unwinding and again after the follow-up: no value dropped twice, nothing reachable through the container twice or after its destructor ran, nothing handed to the caller still reachable, String bytes valid UTF-8, the arena still allocates; leaks are allowed. non-trivial = a run whose panic fired after at least one callback had completed (elements already moved/compared); distinct = distinct scenario bytes".into()
     }
     fn assumptions(&self) -> Vec<String> {
         vec!["panic-once: the injected panic fires at exactly one invocation, so no double panic/abort is provoked".into(), "element types are heap-free, so a double drop is observed as a counter reaching 2 rather than as memory corruption".into()]
